@@ -257,7 +257,10 @@ def init_state(modfile: str, tree: ast.Module, cls: ast.ClassDef | None = None) 
     """The module-level (and, for `cls`, class-level) objects of the module under test that are mutable AND are changed
     by some function of the module (a table that is only ever read is a constant)."""
     import importlib
-    mod = importlib.import_module('srctools.' + modfile[:-3])
+    try:
+        mod = importlib.import_module('srctools.' + modfile[:-3])
+    except Exception as e:      # noqa: BLE001   fail closed, not INTERNAL-ERROR
+        raise TranslateError(f'{modfile}: the module under test cannot be imported: {e!r}')
     names = {}
     for k, v in vars(mod).items():
         if k.startswith('__') or not _mutable_value(v):
